@@ -578,8 +578,9 @@ pub async fn run_owners(plan: &Plan) -> Outcome {
     let mut handles = vec![];
     // bytes inserted since the io write gate was closed (same rule as in churn mode: a batch stays below a quarter of the device)
     let held_bytes = Arc::new(std::sync::atomic::AtomicUsize::new(0));
-    let pending_bytes = Arc::new(std::sync::atomic::AtomicUsize::new(0));
+    let budget = Arc::new(parking_lot::Mutex::new(0usize));
     let held_cap = cfg.blocks * cfg.block_size / 4;
+    let owners_cap = (cfg.blocks * cfg.block_size / 8).min(cfg.block_size).max(4 * PAGE);
     for t in 0..owners {
         let cache = cache.clone();
         let io = io.clone();
@@ -588,7 +589,7 @@ pub async fn run_owners(plan: &Plan) -> Outcome {
         let no_deletes = plan.no_deletes;
         let gates = plan.gates;
         let held_bytes = held_bytes.clone();
-        let pending_bytes = pending_bytes.clone();
+        let budget = budget.clone();
         let hlog = ctl.log.clone();
         handles.push(tokio::spawn(async move {
             // (call, return) stamps of the insert of the latest version of each own key
@@ -620,15 +621,29 @@ pub async fn run_owners(plan: &Plan) -> Outcome {
                         if held_bytes.fetch_add(on_disk(size), Ordering::SeqCst) + on_disk(size) + 2 * PAGE > held_cap {
                             io.release_writes();
                         }
-                        // client-side backpressure: never more than a quarter of the device queued for the disk tier
-                        // (a flush batch that spans most of the device is reclaimed while it is still being written)
-                        if pending_bytes.fetch_add(on_disk(size), Ordering::SeqCst) + on_disk(size) + 2 * PAGE > held_cap {
+                        // client-side backpressure, exact: inserts of all owners are admitted one at a time against a
+                        // shared budget, so that a single flush batch never holds more than `owners_cap` bytes (at most
+                        // one new block is completed per batch; a batch that completes several blocks on a tiny device
+                        // is reclaimed while it is still being written - see DESIGN.md section 7)
+                        let mut val = Some(value::make(s, size, false));
+                        let t0;
+                        loop {
+                            {
+                                // reservation and insert under one lock: everything counted in the budget is enqueued
+                                let mut p = budget.lock();
+                                if *p + on_disk(size) <= owners_cap || *p == 0 {
+                                    *p += on_disk(size);
+                                    t0 = io.now();
+                                    drop(cache.insert(k, val.take().unwrap()));
+                                    break;
+                                }
+                            }
                             io.release_writes();
+                            let before = *budget.lock();
                             cache.storage().wait().await;
-                            pending_bytes.store(0, Ordering::SeqCst);
+                            let mut p = budget.lock();
+                            *p = p.saturating_sub(before);
                         }
-                        let t0 = io.now();
-                        drop(cache.insert(k, value::make(s, size, false)));
                         insert_span.insert(k, (t0, io.now()));
                         if debug {
                             evlog.push((t0, io.now(), k, format!("T{t} insert v{} size {size}", s.version)));
